@@ -85,7 +85,12 @@ func c01UDP(p c01SockPlan) *common.Fail {
 	caddr := sock.LocalAddr().(*net.UDPAddr)
 	for i, h := range p.Items {
 		b := unhex(h)
-		want, good := wellFormed(b)
+		// a datagram beyond the receiver's 1024-octet buffer reaches it cut to 1024 octets: that is what is judged
+		seenAs := b
+		if len(seenAs) > 1024 {
+			seenAs = seenAs[:1024]
+		}
+		want, good := wellFormed(seenAs)
 		if _, m := isMarker(want); good && m {
 			continue // would be mistaken for a marker
 		}
@@ -300,6 +305,20 @@ func genPlanC01Sock(rt *rapid.T) c01SockPlan {
 			b = mutateFrame(rt, b, lens, p.Proto == "tcp")
 		}
 		p.Items = append(p.Items, hex.EncodeToString(b))
+	}
+	if p.Proto == "udp" && rapid.IntRange(0, 2).Draw(rt, "buffer-filling") == 0 {
+		// datagrams that fill the receiver's buffer exactly, nearly, or overflow it (the kernel cuts them): an
+		// unassigned service whose total length says what was sent; whatever follows them arrives as usual
+		for k := rapid.IntRange(1, 3).Draw(rt, "n-full"); k > 0; k-- {
+			total := rapid.SampledFrom([]int{1024, 1024, 1023, 1022, 1025, 1026, 1500, 2048, 4000}).Draw(rt, "full-total")
+			b := make([]byte, total)
+			for i := range b {
+				b[i] = byte(i*11 + total)
+			}
+			b[0], b[1], b[2], b[3], b[4], b[5] = 6, 0x10, 0x0f, 0x00, byte(total>>8), byte(total)
+			at := rapid.IntRange(0, len(p.Items)).Draw(rt, "full-at")
+			p.Items = append(p.Items[:at], append([]string{hex.EncodeToString(b)}, p.Items[at:]...)...)
+		}
 	}
 	if p.Proto == "tcp" && rapid.Bool().Draw(rt, "segmented") {
 		for i := 0; i < rapid.IntRange(1, 5).Draw(rt, "ncuts"); i++ {
